@@ -651,6 +651,19 @@ func phase1(r *rng, emit func(cdoc)) {
 			cv.set("x-RANK", mustJV(`{"n":3}`))
 			emit(cdoc{kind: kind, doc: cv, nf: false, phase: 1, tags: []string{"phase1", "ext", "ext-case-variants"}})
 		}
+		if ki.ext {
+			// an extension named after a keyword of the kind ("x-nullable" next to "nullable", "x-example", "x-deprecated", ...) is an
+			// extension like any other: it survives as it is and leaves the keyword alone
+			for _, kw := range ki.kws {
+				if kw.special != "" || strings.HasPrefix(kw.name, "x-") {
+					continue
+				}
+				emit(cdoc{kind: kind, doc: withMember(base, "x-"+kw.name, mustJV(`true`)), nf: true, phase: 1, tags: []string{"phase1", "single", "ext", "ext-named-after-keyword"}})
+			}
+			for _, n := range []string{"x-nullable", "x-isnullable", "x-omitempty", "x-go-name", "x-go-type", "x-example", "x-deprecated", "x-readOnly", "x-required"} {
+				emit(cdoc{kind: kind, doc: withMember(base, n, mustJV(`true`)), nf: true, phase: 1, tags: []string{"phase1", "single", "ext", "ext-well-known"}})
+			}
+		}
 		for _, kw := range ki.kws { // a required string may be empty
 			if kw.ft.class == "str" && isRequired(ki, kw.name) {
 				emit(cdoc{kind: kind, doc: withMember(base, kw.name, jStr("")), nf: true, phase: 1, tags: []string{"phase1", "single", "kw:" + kw.name, "empty-required"}})
